@@ -690,7 +690,14 @@ class Exec:
                     c4 = c3.fork(*assumptions)
                     self.oblige(f"{name}/invariant-preserved/path{pi}", c4, spec.inv(self, c4, ghost_n, k + 1, seq))
                 elif o3[0] == "break":
-                    raise GenError("break in a loop with invariant is not supported")
+                    # early exit in iteration k: execution continues after the loop (the else-branch is skipped) from the state of
+                    # this path; the ghost state of the loop is the invariant's state at index k, NOT the fold over the whole
+                    # sequence -- a postcondition that needs the whole fold can only hold if the contract accounts for the exit
+                    c4 = c3.fork(*assumptions)
+                    c4.ghost["loop_end"] = ghost_k
+                    c4.ghost.setdefault("loops", {})[self.loop_ordinal_of(st)] = ghost_k
+                    c4.ghost["loop_exit_index"] = k
+                    res.append((c4, None))
                 else:
                     c3.ghost["in_loop"] = (ghost_k, ghost_n, k, elem, assumptions)
                     c3.assume(*assumptions)
